@@ -25,9 +25,9 @@ RULE = ("case = (scenario variant, injector kind); inside: every abort index; a 
         "monitor_counters: runs per injector, events and deliveries checked")
 ASSUMPTIONS = ["abort = OptimizationAborted(USER_ABORT) raised by user code (observer, handler or evaluator), as BasicOptimizer.set_abort_callback does"]
 REQUIRED = {"quick": {"abort_runs.observer": 400, "abort_runs.handler": 400, "abort_runs.evaluator": 150, "events_checked": 15000, "deliveries_checked": 60000,
-                      "streams_checked": 2000, "latch_checked": 900, "later_steps_refused": 300, "nested_abort_runs": 200, "three_level_abort_runs": 600, "plan_functions_refused_after_abort": 900, "basic_optimizer_abort_runs": 24, "__nontrivial__": 900},
+                      "streams_checked": 2000, "latch_checked": 900, "later_steps_refused": 300, "nested_abort_runs": 200, "three_level_abort_runs": 600, "plan_functions_refused_after_abort": 900, "further_step_tried_during_finish_event": 1200, "basic_optimizer_abort_runs": 24, "__nontrivial__": 900},
             "thorough": {"abort_runs.observer": 5000, "abort_runs.handler": 5000, "abort_runs.evaluator": 2000, "events_checked": 200000, "deliveries_checked": 1000000,
-                         "streams_checked": 25000, "latch_checked": 12000, "later_steps_refused": 6000, "nested_abort_runs": 4000, "three_level_abort_runs": 7000, "plan_functions_refused_after_abort": 10000, "basic_optimizer_abort_runs": 200, "__nontrivial__": 12000}}
+                         "streams_checked": 25000, "latch_checked": 12000, "later_steps_refused": 6000, "nested_abort_runs": 4000, "three_level_abort_runs": 7000, "plan_functions_refused_after_abort": 10000, "further_step_tried_during_finish_event": 14000, "basic_optimizer_abort_runs": 200, "__nontrivial__": 12000}}
 N = {"quick": 48, "thorough": 600}
 SCENARIOS = ["optimizer", "evaluator", "sequential", "nested", "nested3"]
 
@@ -50,6 +50,10 @@ class World:
         self.inject = None      # ("observer"|"handler", k)
         self.raised_at = None
         self.raiser = None
+        self.probe = None           # callable: try to run a further step of the main plan -> "refused" | "ran" | repr(exception)
+        self.probe_sources = ()
+        self.probe_outcome = None
+        self.abort_in_evaluator = False
 
     def see(self, event, party, party_kind, first_of_kind):
         pos = self.index.get(id(event))
@@ -64,6 +68,12 @@ class World:
 
             self.raised_at, self.raiser = pos, party
             raise OptimizationAborted(exit_code=OptimizerExitCode.USER_ABORT)
+        # the abort has happened (at an earlier event, or inside the evaluator): while the finish event of the aborted step is
+        # being delivered, a further step of that plan already refuses to run
+        if (self.probe is not None and self.probe_outcome is None and party_kind == "observer" and first_of_kind
+                and event.event_type.name == "FINISHED_OPTIMIZER_STEP" and event.source in self.probe_sources
+                and ((self.raised_at is not None and self.raised_at != pos) or (self.abort_in_evaluator and self.abort_in_evaluator()))):
+            self.probe_outcome = self.probe()
 
 
 _WORLD = {"w": None}
@@ -219,6 +229,22 @@ def build(scenario, rng, world, raise_at):
         step_plan[s2] = "main"
         steps = [("optimizer", so, {"config": ens.make_config_dict(ospec), "nested_optimization": inner}), ("evaluator", s2, {"config": cfgd})]
 
+    spare = main.add_step("evaluator")
+    step_plan[spare] = "main"
+
+    def probe():
+        try:
+            main.run_step(spare, config=cfgd)
+        except PlanAborted:
+            return "refused"
+        except Exception as exc:  # noqa: BLE001
+            return repr(exc)
+        return "ran"
+
+    world.probe = probe
+    world.probe_sources = {sid for kind, sid, _ in steps if kind == "optimizer"}
+    world.abort_in_evaluator = (lambda: len(ev.calls) > min(raise_at)) if raise_at else None      # the evaluator has raised by now
+
     def run():
         out = []
         import warnings  # noqa: PLC0415
@@ -349,6 +375,12 @@ def check_run(obs, world, outcomes, plans, step_plan, observers, steps, tag, inj
             if not main.aborted:
                 obs.violation("plan_not_marked_aborted", raised_at=raised_type, **tag)
                 return False
+            if world.probe_outcome is not None:
+                obs.count("further_step_tried_during_finish_event")
+                if world.probe_outcome != "refused":
+                    obs.violation("further_step_ran_while_the_finish_event_of_the_aborted_step_was_delivered", outcome=world.probe_outcome,
+                                  raised_at=raised_type, **tag)
+                    return False
             if "inner" in plans and aborted_step is not None and step_plan.get(aborted_step) == "inner" and not plans["inner"]["plan"].aborted:
                 obs.violation("inner_plan_not_marked_aborted", raised_at=raised_type, **tag)
                 return False
